@@ -396,7 +396,7 @@ fn kzg10_direct(ctx: &mut Ctx, rng: &mut ChaCha20Rng) {
 fn mlpst(ctx: &mut Ctx, rng: &mut ChaCha20Rng) {
     use ark_poly_commit::multilinear_pc::MultilinearPC;
     type F = ark_bls12_381::Fr;
-    let nv = range(rng, 1, 6);
+    let nv = if is_large() { range(rng, 10, 11) } else { range(rng, 1, 6) };
     let desc = json!({"nv": nv});
     let r = guard(|| {
         let pp = MultilinearPC::<E381>::setup(nv, rng);
@@ -596,6 +596,21 @@ pub fn run(ctx: &mut Ctx) {
     ctx.run_cases("ligero-uni", n, |ctx, _i, rng| linear_code::<UniLigeroS, UniLigeroEnc>(ctx, rng));
     ctx.run_cases("ligero-ml", n, |ctx, _i, rng| linear_code::<MlLigeroS, MlLigeroEnc>(ctx, rng));
     ctx.run_cases("brakedown", n / 2, |ctx, _i, rng| linear_code::<BrakedownS, BrakedownEnc>(ctx, rng));
+    // the same oracles on polynomials with more than a thousand coefficients
+    set_large(true);
+    let nl = if ctx.is_thorough() { 8 } else { 3 };
+    ctx.run_cases("marlin/large", nl, |ctx, _i, rng| kzg_family::<E381, MarlinS<E381>>(ctx, rng, false));
+    ctx.run_cases("sonic/large", nl, |ctx, _i, rng| kzg_family::<E381, SonicS<E381>>(ctx, rng, true));
+    ctx.run_cases("ipa/large", nl, |ctx, _i, rng| ipa(ctx, rng));
+    ctx.run_cases("pst13/large", nl / 2, |ctx, _i, rng| pst13(ctx, rng));
+    ctx.run_cases("kzg10/large", nl, |ctx, _i, rng| kzg10_direct(ctx, rng));
+    ctx.run_cases("mlpst/large", nl / 2, |ctx, _i, rng| mlpst(ctx, rng));
+    ctx.run_cases("streaming/large", nl, |ctx, _i, rng| streaming(ctx, rng));
+    ctx.run_cases("hyrax/large", nl, |ctx, _i, rng| hyrax(ctx, rng));
+    ctx.run_cases("ligero-uni/large", nl, |ctx, _i, rng| linear_code::<UniLigeroS, UniLigeroEnc>(ctx, rng));
+    ctx.run_cases("ligero-ml/large", nl, |ctx, _i, rng| linear_code::<MlLigeroS, MlLigeroEnc>(ctx, rng));
+    ctx.run_cases("brakedown/large", nl, |ctx, _i, rng| linear_code::<BrakedownS, BrakedownEnc>(ctx, rng));
+    set_large(false);
     if ctx.is_thorough() {
         ctx.run_cases("marlin-377", n / 4, |ctx, _i, rng| kzg_family::<E377, MarlinS<E377>>(ctx, rng, false));
         ctx.run_cases("sonic-377", n / 4, |ctx, _i, rng| kzg_family::<E377, SonicS<E377>>(ctx, rng, true));
